@@ -210,7 +210,9 @@ where
                         .map_err(CodecError::DecompressFailure)?;
                 }
 
-                let batch = decode_message_batch(bytes)?;
+                // Messages are popped off the end of the batch, so store it back to front
+                let mut batch = decode_message_batch(bytes)?;
+                batch.reverse();
                 self.message_batch = Some(batch);
                 self.poll_next(cx)
             }
